@@ -12,13 +12,18 @@ argument order, the keyword arguments of the calls (bound against the CURRENT si
 Tree.reseed_at / Tree.encode_bipartitions, defaults included), the loop structure (`for` with `break`,
 `while` with `break` -> for_break / while_fuel over the tuple of variables the body assigns), the
 order of the statements.  Interface operations (only their call shape is compiled): the
-PhylogeneticDistanceMatrix queries, Node.distance_from_root, Node.remove_child / add_child, the Node()
-constructor (these four statement forms only as the six-statement edge split, see Fn.edge_split),
-Tree.leaf_node_iter, Tree.reseed_at, Tree.update_bipartitions.
+PhylogeneticDistanceMatrix queries, Node.distance_from_root, Tree.leaf_node_iter, Tree.reseed_at,
+Tree.update_bipartitions, and the POINTER BLOCK of the method (the statements that change the object graph
+through local variables - the edge split): ONE operation here (op_split_block, applied to the variables the
+block reads in order of first use), whatever the statements inside are; py/dv/gen_mutators.py compiles those
+statements one by one over the heap (Gen/Mutators.v Tree_reroot_at_midpoint__edge_split) and Props/C07Gen.v
+proves the compiled block equal to the operation, see Fn.pointer_block_call.
 
 Whitelist: anything not recognised raises Unsupported (fail closed)."""
 import ast
 import os
+
+from dv.gen_mutators import pointer_block, is_pointer_stmt, Unsupported as MutUnsupported
 
 OUTPUT = "Midpoint.v"
 
@@ -163,6 +168,10 @@ class Ctx(object):
 class Fn(object):
     def __init__(self, fn, sigs):
         self.fn = fn
+        try:
+            self.ptr_block = pointer_block(fn)
+        except MutUnsupported as e:
+            raise Unsupported(str(e))
         self.sigs = sigs
         self.env = {}
         self.strict = False
@@ -403,58 +412,22 @@ class Fn(object):
                 self.flag(bound["suppress_unifurcations"]), self.flag(bound["collapse_unrooted_basal_bifurcation"]))]
         raise Unsupported("call statement %s on a %s" % (f.attr, rty))
 
-    def edge_split(self, ss):
-        """tail.remove_child(head); new = _node.Node(); new.add_child(head); head.edge.length = A;
-        tail.add_child(new); new.edge.length = B      (C07GenMidPrims.op_split_edge).  The roles are
-        taken from the AST; comments between the statements do not matter, anything else does."""
-        def name(e):
-            if not isinstance(e, ast.Name):
-                raise Unsupported("edge split: expected a variable, got " + dump(e))
-            return e.id
-
-        def mcall(st, attr):
-            if not (isinstance(st, ast.Expr) and isinstance(st.value, ast.Call) and isinstance(st.value.func, ast.Attribute)
-                    and st.value.func.attr == attr and len(st.value.args) == 1 and not st.value.keywords):
-                raise Unsupported("edge split: expected a call of %s, got %s" % (attr, dump(st)))
-            return name(st.value.func.value), name(st.value.args[0])
-
-        def lenstore(st):
-            if not (isinstance(st, ast.Assign) and len(st.targets) == 1 and isinstance(st.targets[0], ast.Attribute)
-                    and st.targets[0].attr == "length" and isinstance(st.targets[0].value, ast.Attribute)
-                    and st.targets[0].value.attr == "edge"):
-                raise Unsupported("edge split: expected an edge.length store, got " + dump(st))
-            return name(st.targets[0].value.value), st.value
-
-        if len(ss) != 6:
-            raise Unsupported("edge split: six statements expected after remove_child")
-        tail, head = mcall(ss[0], "remove_child")
-        if not (isinstance(ss[1], ast.Assign) and len(ss[1].targets) == 1 and isinstance(ss[1].value, ast.Call)
-                and _is_node_ctor(ss[1].value)):
-            raise Unsupported("edge split: expected new = _node.Node(), got " + dump(ss[1]))
-        new = name(ss[1].targets[0])
-        if new in (tail, head) or tail == head:
-            raise Unsupported("edge split: roles coincide")
-        if mcall(ss[2], "add_child") != (new, head):
-            raise Unsupported("edge split: third statement must be %s.add_child(%s)" % (new, head))
-        n4, a = lenstore(ss[3])
-        if n4 != head:
-            raise Unsupported("edge split: fourth statement must set %s.edge.length" % head)
-        if mcall(ss[4], "add_child") != (tail, new):
-            raise Unsupported("edge split: fifth statement must be %s.add_child(%s)" % (tail, new))
-        n6, bq = lenstore(ss[5])
-        if n6 != new:
-            raise Unsupported("edge split: sixth statement must set %s.edge.length" % new)
-        _, tt, tty = self.expr(ast.Name(id=tail, ctx=ast.Load()))
-        _, ht, hty = self.expr(ast.Name(id=head, ctx=ast.Load()))
-        if (tty != NODE or hty != NODE) and self.strict:
-            raise Unsupported("edge split between a %s and a %s" % (tty, hty))
-        ba, at, aty = self.expr(a)
-        bb, bt, bty = self.expr(bq)
-        if ba or bb:
-            raise Unsupported("edge split: effects in the lengths")
-        self.declare(new, NODE)
-        return ["do (self, %s) <- op_split_edge fresh self %s %s %s %s ;;"
-                % (new, tt, ht, self.coerce(bt, bty, OZ), self.coerce(at, aty, OZ))]
+    def pointer_block_call(self):
+        """The pointer block of the method (the maximal run of statements that change the object graph
+        through local variables: dv.gen_mutators.pointer_block) as ONE operation, op_split_block, applied
+        to the variables the block reads, in order of first use; it binds the variable the block assigns.
+        Nothing about the statements inside the block is checked here: they are compiled one by one over
+        the heap by gen_mutators (Gen/Mutators.v Tree_reroot_at_midpoint__edge_split, same parameters in
+        the same order), and Props/C07Gen.v proves that compiled block equal to op_split_block."""
+        _stmts, inputs, out = self.ptr_block
+        args = []
+        for name, kind in inputs:
+            b, t, ty = self.expr(ast.Name(id=name, ctx=ast.Load()))
+            if b:
+                raise Unsupported("pointer block: effects in an input")
+            args.append(self.coerce(t, ty, OZ if kind == "len" else NODE))
+        self.declare(out, NODE)
+        return ["do (self, %s) <- op_split_block fresh self %s ;;" % (out, " ".join(args))]
 
     def assign(self, target, value):
         if isinstance(target, ast.Name):
@@ -510,9 +483,13 @@ class Fn(object):
                 raise Unsupported("augmented assignment to " + dump(s.target))
             return self.assign(s.target, ast.BinOp(left=ast.Name(id=s.target.id, ctx=ast.Load()), op=s.op,
                                                    right=s.value)) + self.block(rest, ctx)
-        if (isinstance(s, ast.Expr) and isinstance(s.value, ast.Call) and isinstance(s.value.func, ast.Attribute)
-                and s.value.func.attr == "remove_child"):
-            return self.edge_split(stmts[:6]) + self.block(stmts[6:], ctx)
+        if s is self.ptr_block[0][0]:
+            n = len(self.ptr_block[0])
+            if len(stmts) < n or any(a is not b for a, b in zip(stmts[:n], self.ptr_block[0])):
+                raise Unsupported("pointer block is not a run of this statement list")
+            return self.pointer_block_call() + self.block(stmts[n:], ctx)
+        if is_pointer_stmt(s):
+            raise Unsupported("pointer statement outside the pointer block: " + dump(s))
         if isinstance(s, ast.Expr) and isinstance(s.value, ast.Call):
             return self.stmt_call(s.value) + self.block(rest, ctx)
         if isinstance(s, ast.Assert):
